@@ -104,19 +104,36 @@ package chord
 //@   at call Lock#1: ghost local := true
 //@   ensures local-handling-is-success-or-retryable: local ==> (err == nil || chord.retryableChord(err))
 //@   ensures success-hands-over: (local && err == nil) ==> (len(succs) >= 1 && n.predecessor == joiner && n.surrogate == joiner)
-//@   ensures refusal-changes-no-pointer: (local && err != nil) ==> (n.predecessor == old(n.predecessor) && n.surrogate == old(n.surrogate))
+// the pointers may be changed by other goroutines until the lock that protects them is held: they are havocked at
+// each lock acquisition and every later statement is about the values read under the lock (surrL, predL)
+//@   ghost surrL chord.VNode = nil
+//@   ghost predL chord.VNode = nil
+//@   ghost gotS bool = false
+//@   ghost gotP bool = false
+//@   at after call Lock#1: havoc n.surrogate
+//@   at after call Lock#1: ghost surrL := n.surrogate
+//@   at after call Lock#1: ghost gotS := true
+//@   at after call Lock#2: havoc n.predecessor
+//@   at after call Lock#2: ghost predL := n.predecessor
+//@   at after call Lock#2: ghost gotP := true
+//@   ensures local-refusal-changes-no-pointer: (local && err != nil) ==> ((gotP ==> n.predecessor == predL) && (gotS ==> n.surrogate == surrL))
+//@   ghost ranged int = 0
+//@   ghost inRange bool = false
+//@   at call Between#*: assert the-joiner-must-lie-strictly-between-the-predecessor-read-under-the-lock-and-this-node: gotP && predL != nil && callarg0 == predL.ID() && callarg1 == joiner.ID() && callarg2 == n.ID() && callarg3 == false
+//@   at after call Between#*: ghost inRange := callresult
+//@   at after call Between#*: ghost ranged := ranged + 1
 // C06 / C07 / C05: the membership lock around the hand-over
 //@   ghost tries int = 0
 //@   ghost took bool = false
 //@   ghost sets int = 0
 //@   ghost transfers int = 0
 //@   ghost terr error = nil
-//@   at call Transition#*: assert the-lock-is-a-cas-from-active-to-transferring-taken-before-anything-is-touched: callarg0 == n.state && callarg1 == chord.Active && callarg2 == chord.Transferring && tries == 0 && sets == 0 && transfers == 0 && n.predecessor == old(n.predecessor) && n.surrogate == old(n.surrogate)
+//@   at call Transition#*: assert the-lock-is-a-cas-from-active-to-transferring-taken-before-anything-is-touched: callarg0 == n.state && callarg1 == chord.Active && callarg2 == chord.Transferring && tries == 0 && sets == 0 && transfers == 0 && gotS && !gotP && n.surrogate == surrL
 //@   at after call Transition#*: ghost took := callresult1
 //@   at after call Transition#*: ghost tries := tries + 1
 //@   at $1/call Set#1: assert only-a-held-lock-is-released-and-by-setting-active: callarg0 == n.state && callarg1 == chord.Active && took && sets == 0
 //@   at $1/call Set#1: ghost sets := sets + 1
-//@   at call transferKeysUpward#*: assert keys-move-to-the-joiner-only-under-the-lock-from-the-old-predecessor: took && sets == 0 && transfers == 0 && any(callarg2) == any(old(n.predecessor)) && any(callarg3) == any(joiner) && n.surrogate == old(n.surrogate)
+//@   at call transferKeysUpward#*: assert keys-move-to-the-joiner-only-under-the-lock-from-the-old-predecessor: took && sets == 0 && transfers == 0 && gotP && ranged == 1 && inRange && any(callarg2) == any(predL) && any(callarg3) == any(joiner) && n.surrogate == surrL && n.predecessor == predL
 //@   at after call transferKeysUpward#*: ghost terr := callresult
 //@   at after call transferKeysUpward#*: ghost transfers := transfers + 1
 //@   ensures local-a-refused-request-leaves-the-lifecycle-word-alone: (local && !took) ==> (sets == 0 && transfers == 0 && err == chord.ErrJoinInvalidState)
@@ -1041,6 +1058,7 @@ package chord
 //@   at call computeUpdate#*: ghost updates := updates + 1
 //@   ensures local-a-failed-lookup-changes-nothing: (looks == 1 && lerr != nil) ==> (err == lerr && updates == 0)
 //@   ensures local-success-means-the-entry-was-visited: err == nil ==> (looks == 1 && updates == 1)
+//@   ensures local-every-answered-lookup-reaches-the-entry-also-when-the-answer-is-the-node-itself: (looks == 1 && lerr == nil && lres != nil) ==> (err == nil && updates == 1)
 
 //@ func (n *LocalNode) fixK$1(entry *fingerEntry)
 //@   opt frame=off
